@@ -31,8 +31,10 @@ ASSUMPTIONS = ['LFDA.embedding_type is only given its three documented values (i
 BOUNDS = {'quick': dict(depth=3), 'thorough': dict(depth=6)}
 
 ALIASES = {'LMNN': [('k', 'n_neighbors', 5)], 'RCA_Supervised': [('num_chunks', 'n_chunks', 7)],
-           'ITML': [('convergence_threshold', 'tol', 0.125)], 'MMC': [('convergence_threshold', 'tol', 0.125)],
-           'ITML_Supervised': [('convergence_threshold', 'tol', 0.125), ('num_constraints', 'n_constraints', 9)],
+           'ITML': [('convergence_threshold', 'tol', 0.125), ('convergence_threshold', 'tol', 0.0)],
+           'MMC': [('convergence_threshold', 'tol', 0.125), ('convergence_threshold', 'tol', 0.0)],
+           'ITML_Supervised': [('convergence_threshold', 'tol', 0.125), ('convergence_threshold', 'tol', 0.0),
+                               ('num_constraints', 'n_constraints', 9)],
            'MMC_Supervised': [('convergence_threshold', 'tol', 0.125), ('num_constraints', 'n_constraints', 9)],
            'SDML_Supervised': [('num_constraints', 'n_constraints', 9)], 'LSML_Supervised': [('num_constraints', 'n_constraints', 9)]}
 ALTERNATIVES = {'init': ['auto', 'pca', 'lda', 'identity', 'random', 'covariance'], 'prior': ['identity', 'covariance', 'random'],
@@ -134,7 +136,7 @@ def run_case(spec):
                 est = C(**{alias: val})
             if not any(issubclass(x.category, FutureWarning) for x in w):
                 viol.append(V(name + '.__init__', 'alias_no_warning', '%s(%s=...) did not emit a FutureWarning' % (name, alias), [alias]))
-            if est.get_params().get(target) != val:
+            if est.get_params().get(target) != val or type(est.get_params().get(target)) is not type(val):
                 viol.append(V(name + '.__init__', 'alias_not_mapped', '%s(%s=%r): %s is %r' % (name, alias, val, target,
                                                                                               est.get_params().get(target)), [alias]))
             sigs.add((name, 'alias', alias))
@@ -235,6 +237,48 @@ def run_case(spec):
         except Exception as e:
             viol.append(V(name + '.' + meth, 'unfitted_wrong_exception', '%s on an unfitted estimator raised %s, not NotFittedError'
                           % (meth, type(e).__name__), ['unfitted']))
+    # a fit that raises after input preparation (n_components out of range / unknown option value) leaves the estimator not fitted
+    bad_over = ({'n_components': ds.d + 3} if 'n_components' in un.get_params() else
+                ({'prior': 'no_such_prior'} if 'prior' in un.get_params() else ({'init': 'no_such_init'} if 'init' in un.get_params() else None)))
+    if bad_over is not None:
+        fe = zoo.make(name, ds, **bad_over)
+        try:
+            fe.fit(*zoo.train_args(name, ds))
+            failed = False
+        except Exception:
+            failed = True
+        if failed and not hasattr(fe, 'components_'):
+            for meth, a in queries(fe):
+                evals += 1
+                # (the threshold methods live in the shared pairs mixin: one call site for the three pairs learners)
+                fsite = ('_PairsClassifierMixin.' + meth) if (name in zoo.PAIRS and meth in ('predict', 'set_threshold')) else (name + '.' + meth)
+                try:
+                    getattr(fe, meth)(*a)
+                    viol.append(V(fsite, 'unfitted_accepted', '%s after a FAILED fit returned normally [%s]' % (meth, name), ['failed_fit']))
+                except NotFittedError:
+                    sigs.add((name, 'failed_fit', meth))
+                except Exception as e:
+                    viol.append(V(fsite, 'unfitted_wrong_exception', '%s after a failed fit (estimator still not fitted) raised %s, not '
+                                  'NotFittedError [%s]' % (meth, type(e).__name__, name), ['failed_fit']))
+    # random_state given as a RandomState instance: a clone must behave identically when fitted (independent copy of the stream)
+    if 'random_state' in un.get_params():
+        over_r = {'random_state': np.random.RandomState(7)}
+        for key in ('prior', 'init'):
+            if key in un.get_params() and name not in ('LMNN', 'NCA', 'MLKR'):
+                over_r[key] = 'random'
+        if name in ('LMNN', 'NCA', 'MLKR'):
+            over_r['init'] = 'random'
+        e1 = zoo.make(name, ds, **over_r)
+        c1 = clone(e1)
+        c2 = clone(e1)
+        c1.fit(*zoo.train_args(name, ds))
+        c2.fit(*zoo.train_args(name, ds))
+        e1.fit(*zoo.train_args(name, ds))
+        evals += 3
+        sigs.add((name, 'random_state_instance'))
+        if not (np.array_equal(c1.components_, c2.components_) and np.array_equal(c1.components_, e1.components_)):
+            viol.append(V(name + '.clone', 'clone_behaves_differently', 'random_state given as a RandomState instance: two clones and the original, '
+                          'fitted one after the other on the same data, give different models (the clones share the random stream)', ['random_state_instance']))
     cfgs = [('base', {})] + [(lab, o) for lab, o in zoo.option_configs(name, ds, 'quick')
                              if any(isinstance(v, np.ndarray) for v in o.values())][:2]
     for clab, over in cfgs:
